@@ -74,26 +74,29 @@ Fresh == CHOOSE i \in 2..MaxInst : objects[i] = NONE /\ boxes[i] = NONE /\ \A j 
          \* an identifier never used before: the code draws 31 random bits
 PickId == IF Dev_IdZeroAfterMainRemoved /\ objects[1] = NONE THEN 0 ELSE Fresh
 
-Add ==
-  /\ Alive /\ svc = "up" /\ \E k \in Inst : st[k] = "new"
-  /\ LET k == NextInst  id == PickId IN
-       /\ objects' = [objects EXCEPT ![id] = k]
-       /\ boxes' = [boxes EXCEPT ![id] = k]
-       /\ st' = [st EXCEPT ![k] = "live"]
-       /\ idOf' = [idOf EXCEPT ![k] = id]
-       /\ ret' = R("", k)
-  /\ UNCHANGED <<term, exec, subs, told, got, svc, crashed>>
+\* IsFresh(id): never handed out before (the code draws 31 random bits)
+IsFresh(id) == id >= 2 /\ objects[id] = NONE /\ boxes[id] = NONE /\ \A j \in Inst : idOf[j] # id
 
-AddFail ==
-  /\ Alive /\ svc = "up" /\ \E k \in Inst : st[k] = "new"
-  /\ LET k == NextInst  id == PickId IN
-       /\ st' = [st EXCEPT ![k] = "failed"]
-       /\ idOf' = [idOf EXCEPT ![k] = id]
-       /\ IF Dev_FailedAddLeavesEntry
-            THEN objects' = [objects EXCEPT ![id] = NILOBJ] /\ boxes' = [boxes EXCEPT ![id] = NILOBJ]
-            ELSE UNCHANGED <<objects, boxes>>
-       /\ ret' = R("err", k)
+AddAs(k, id) ==      \* instance k is added under identifier id
+  /\ Alive /\ svc = "up" /\ st[k] = "new"
+  /\ objects' = [objects EXCEPT ![id] = k]
+  /\ boxes' = [boxes EXCEPT ![id] = k]
+  /\ st' = [st EXCEPT ![k] = "live"]
+  /\ idOf' = [idOf EXCEPT ![k] = id]
+  /\ ret' = R("", k)
   /\ UNCHANGED <<term, exec, subs, told, got, svc, crashed>>
+Add == (\E k \in Inst : st[k] = "new") /\ AddAs(NextInst, PickId)
+
+AddFailAs(k, id) ==
+  /\ Alive /\ svc = "up" /\ st[k] = "new"
+  /\ st' = [st EXCEPT ![k] = "failed"]
+  /\ idOf' = [idOf EXCEPT ![k] = id]
+  /\ IF Dev_FailedAddLeavesEntry
+       THEN objects' = [objects EXCEPT ![id] = NILOBJ] /\ boxes' = [boxes EXCEPT ![id] = NILOBJ]
+       ELSE UNCHANGED <<objects, boxes>>
+  /\ ret' = R("err", k)
+  /\ UNCHANGED <<term, exec, subs, told, got, svc, crashed>>
+AddFail == (\E k \in Inst : st[k] = "new") /\ AddFailAs(NextInst, PickId)
 
 \* OnTerminate of instance k: hook, subscribers told and dropped
 Terminated(k, t, tl, sb) ==
